@@ -80,6 +80,9 @@ pub struct Plan {
     pub max_drain: usize,
     /// ticks run after idleness was reached (they observe final snapshots / deferred items)
     pub extra: usize,
+    /// for flows with simulated futures: how often the k-th future created by the flow answers
+    /// `Pending` before it completes (missing entries: 0 = immediately ready)
+    pub pends: Vec<u8>,
 }
 impl Plan {
     pub fn steps(&self) -> usize {
@@ -90,7 +93,7 @@ impl Plan {
     }
     /// same inputs, everything released before the first tick
     pub fn canonical(inputs: &[Vec<Val>], max_drain: usize, extra: usize) -> Plan {
-        Plan { rel: inputs.iter().map(|i| vec![i.clone()]).collect(), max_drain, extra }
+        Plan { rel: inputs.iter().map(|i| vec![i.clone()]).collect(), max_drain, extra, pends: vec![] }
     }
     /// the batches every tick saw (padded with empty batches up to `ticks`)
     pub fn batches(&self, ticks: usize) -> Vec<Vec<Vec<Val>>> {
@@ -120,6 +123,8 @@ pub struct Exec {
     pub loc_ticks: Vec<usize>,
     pub msgs_delivered: usize,
     pub max_in_flight: usize,
+    /// how many times a simulated future answered `Pending` inside a tick
+    pub suspensions: usize,
 }
 impl Exec {
     pub fn collect(total_ticks: usize, idle_after: Option<usize>, logs: Vec<Vec<(usize, Val)>>) -> Exec {
